@@ -67,6 +67,7 @@ def forms():
     F["nested_class"] = lambda k: ([I.class_("Kls", [I.pass_()]), I.assign(I.name("a"), I.site(k()))], ["a"])
     F["lambda"] = lambda k: ([I.assign(I.name("a"), I.lam(I.site(k())))], ["a"])
     F["comprehension"] = lambda k: ([I.assign(I.name("a"), I.comp("q", k(), I.read("q")))], ["a"])
+    F["match_capture"] = lambda k: ([I.match_(k(), k(), "a", "b", [I.assign(I.name("c"), I.add(I.read("a"), I.read("b")))])], ["a", "b", "c"])
     F["comprehension2"] = lambda k: ([I.assign(I.name("a"), I.comp2("q", "r", k()))], ["a"])
     F["expr_call"] = lambda k: ([I.assign(I.name("a"), I.site(k())), I.expr(I.call(k(), I.read("a")))], ["a"])
     F["del"] = lambda k: ([I.assign(I.name("a"), I.site(k())), I.del_("a"), I.assign(I.name("a"), I.site(k()))], ["a"])
